@@ -5,7 +5,7 @@ hand-written models for library functions, listeners for rule-specific typestate
 Nothing of wencry is ever executed: values are abstract (values.py).
 """
 from .values import *
-from .facts import AnalysisBroken, loc as nloc
+from .facts import AnalysisBroken, walk, strip, loc as nloc
 
 MAX_CONCRETE_ITERS = 5000
 MAX_ABSTRACT_ITERS = 12
@@ -212,6 +212,9 @@ class Interp:
             return TOP
         obj, path = loc
         key = (obj, path)
+        # a global that a signal handler writes can change between any two statements: every read sees an unknown value
+        if isinstance(obj, str) and obj.startswith('G:') and obj[2:] in self.async_globals():
+            return self.enum_default(TOP, t)
         v = st.mem.get(key)
         if v is not None and concrete_path(path):
             return v
@@ -280,6 +283,49 @@ class Interp:
         if v == TOP and t and t.get('k') == 'bool':
             return R(0, 1)
         return v
+
+    def async_globals(self):
+        """names of globals / static members assigned by a function installed as a signal handler (signal, std::signal,
+        sigaction through a named function) or by what such a function calls"""
+        c = getattr(self.prog, '_async_globals', None)
+        if c is not None:
+            return c
+        prog = self.prog
+        handlers = set()
+        for f in prog.functions.values():
+            for n in walk(f['body']):
+                if n['k'] == 'CallExpr' and (n.get('callee', {}).get('q') or '') in ('signal', 'std::signal', 'bsd_signal', 'sigset'):
+                    for a in n.get('args', [])[1:]:
+                        for x in walk(a):
+                            if x['k'] == 'DeclRefExpr' and x.get('dk') in ('Function', 'CXXMethod') and x.get('d') in prog.functions:
+                                handlers.add(x['d'])
+                if n['k'] == 'BinaryOperator' and n.get('op') == '=' and strip(n['lhs']).get('k') == 'MemberExpr' and strip(n['lhs']).get('m') in ('sa_handler', 'sa_sigaction'):
+                    for x in walk(n['rhs']):
+                        if x['k'] == 'DeclRefExpr' and x.get('dk') in ('Function', 'CXXMethod') and x.get('d') in prog.functions:
+                            handlers.add(x['d'])
+        seen, todo = set(), list(handlers)
+        while todo:
+            x = todo.pop()
+            if x in seen or x not in prog.functions:
+                continue
+            seen.add(x)
+            for n in walk(prog.functions[x]['body']):
+                if n['k'] in ('CallExpr', 'CXXMemberCallExpr') and n.get('callee', {}).get('m'):
+                    todo.append(n['callee']['m'])
+        out = set()
+        for x in seen:
+            for n in walk(prog.functions[x]['body']):
+                tgt = None
+                if n['k'] in ('BinaryOperator', 'CompoundAssignOperator') and (n.get('op') == '=' or n['k'] == 'CompoundAssignOperator'):
+                    tgt = strip(n['lhs'])
+                elif n['k'] == 'UnaryOperator' and n.get('op') in ('++', '--'):
+                    tgt = strip(n['e'])
+                if tgt is not None and tgt.get('k') == 'DeclRefExpr' and tgt.get('glob') and str(tgt.get('d', '')).startswith('G:'):
+                    out.add(tgt['d'][2:])
+                if tgt is not None and tgt.get('k') == 'MemberExpr' and tgt.get('mk') == 'Var' and tgt.get('q'):
+                    out.add(tgt['q'])
+        prog._async_globals = out
+        return out
 
     def _init_load(self, g, path):
         """Element of a constant aggregate (arrays of structs, function pointers, string pointers) read off its initialiser."""
